@@ -526,6 +526,15 @@ func genInWorkerCase(t *rapid.T) FCase {
 	c := FCase{Test: "inworker", ReadErrAt: -1, SrcAckErrAt: -1}
 	var total int
 	c.Batches, total = genBatches(t, 2, 8, false)
+	for _, b := range c.Batches {
+		// the condition fails to evaluate for a drawn record of the batch (sometimes two)
+		if len(b) > 0 && chance(t, "evalfails", 40) {
+			b[rapid.IntRange(0, len(b)-1).Draw(t, "failat")].C = 1
+			if chance(t, "evalfails2", 15) {
+				b[rapid.IntRange(0, len(b)-1).Draw(t, "failat2")].C = 1
+			}
+		}
+	}
 	ps := genProcScript(t, "real", total, inWorkerDeltas)
 	ps.OpenErr, ps.TeardownErr = false, false
 	ps.Real = true
